@@ -90,17 +90,19 @@ PROPERTIES = {
     "C09": dict(
         groups=[
             E_BINDING(
-        overlay={"gen/binding/zz_verif_c09.go": "harness/c09/c09_headers.go", "gen/binding/zz_verif_c09b.go": "harness/c09/c09_bytes.go"},
+        overlay={"gen/binding/zz_verif_c09.go": "harness/c09/c09_headers.go", "gen/binding/zz_verif_c09b.go": "harness/c09/c09_bytes.go",
+                 "gen/binding/zz_verif_c09r.go": "harness/c09/c09_routes.go", "gen/binding/zz_verif_c02.go": "harness/c02/c02_binding.go", "gen/binding/zz_verif_c17.go": "harness/c17/c17_server.go"},
         harnesses=[dict(func="VerifC09Merge", reach=["C09/merge-decided", "C09/override-relaxes"], quick=dict(budget=300), thorough=dict(budget=1200)),
                    dict(func="VerifC09Value", reach=["C09/value-decided", "C09/uuid-shape", "C09/undecided-by-reference"], quick=dict(budget=300, parts=8), thorough=dict(budget=1200, parts=8)),
-                   dict(func="VerifC09NonUTF8Values", reach=["C09/bytes/decided"], quick=dict(budget=60), thorough=dict(budget=120))]),
+                   dict(func="VerifC09NonUTF8Values", reach=["C09/bytes/decided"], quick=dict(budget=60), thorough=dict(budget=120)),
+                   dict(func="VerifC09PerRoute", reach=["C09/route/dispatched", "C09/route/rejected"], quick=dict(budget=120), thorough=dict(budget=300))]),
             dict(mode="G", load_pkgs=["./internal/tsservergen"], pkgpath=MOD + "/internal/tsservergen", test_pkg="./internal/tsservergen", test_pkgname="tsservergen",
                  init=DEFAULT_INIT,
                  overlay={"internal/tsservergen/zz_verif_c09.go": "harness/c09/c09_ts_g.go"},
                  harnesses=[dict(func="VerifC09TSHeaderConfig", reach=["C09/ts/decided"], quick=dict(budget=120), thorough=dict(budget=300))]),
         ],
         bounds_text={"quick": "Merge: 1-2 service-level + 1 method-level declaration, method name in {same, 2 case variants, different}, required flags and presence symbolic, values printable ASCII <= 4. "
-                              "Value: one required header, type in 7 x format in 7 (incl. unknown ones), declared at service or method level, value printable ASCII <= 6 (uuid additionally: a well-formed 36-character uuid with 1-2 arbitrary characters at 10 chosen positions incl. dash positions and group boundaries, and any 37 characters)"},
+                              "Per route: the binding schema's two services x two routes registered through Register*Server on one mux, one request with each declared header absent/valid (thorough: malformed). Value: one required header, type in 7 x format in 7 (incl. unknown ones), declared at service or method level, value printable ASCII <= 6 (uuid additionally: a well-formed 36-character uuid with 1-2 arbitrary characters at 10 chosen positions incl. dash positions and group boundaries, and any 37 characters)"},
         assumptions=E_ASSUMPTIONS + ["formats date-time/date/time: time.Parse is stubbed with an arbitrary result, only their dispatch is covered",
                                      "type number: reference decides only plain decimals (must pass) and strings with characters outside [-+0-9a-zA-Z._] (must fail)",
                                      "TS server: only the emitted per-route header table is decided (one entry per declaration with name [A-Za-z0-9-]{1,6}, 7 type spellings, 6 formats, required flag; service + optional method declaration); the static TS validateHeaders runtime is not executed"]),
